@@ -801,6 +801,7 @@ theorem gen_seqvar_key_is_model (sv : SeqVars) (h : sv.index < sv.items.length) 
   | tuple xs => cases xs <;> simp [pySubscr, lit, subscr, pyIdx, toSeqRes, exc_def]
   | list xs => cases xs <;> simp [pySubscr, lit, subscr, pyIdx, toSeqRes, exc_def]
   | str xs => cases xs <;> simp [pySubscr, lit, subscr, pyIdx, toSeqRes, exc_def]
+  | bytes xs => cases xs <;> simp [pySubscr, lit, subscr, pyIdx, toSeqRes, exc_def]
   | _ => simp [pySubscr, lit, subscr, toSeqRes, exc_def]
 
 /-- on a 2-tuple `key` is the model's `seqKey` -/
@@ -997,5 +998,136 @@ theorem gen_in_batch_loop_from_start (env : Env) (o : InOpts) (body : List Blk) 
 
 /-- the hypotheses are satisfiable: a window inside a five-element sequence -/
 example : (bwinOf { start := 2, size := 2 } 5).stop ≤ 5 := by decide
+
+/-! ### The dispatch of `sequence_variables.__getitem__` is that of the source
+
+`GenSeqVar.getitemGen` / `tailGen` are regenerated on every run from `__getitem__` (harness/trans_seqvar.py): the dictionary
+first, `key.rfind('-')` and the test `l_ < 0`, the two slices `key[l_ + 1:]` / `key[:l_]`, the alt_prefix branch
+(`startswith`, `key[len(alt_prefix):].replace('_', '-')`, `self[suffix]` inside `try … except KeyError`, `'sequence-' +
+suffix`), then `hasattr(self, suffix)` with `data[prefix + '-index']`, the table `special_prefixes` (its keys and what each
+routes to, the statistics added by the loop), `prefix[-4:] == '-var'` with `self.value(data[prefix + '-index'], suffix)`
+inside `try … except Exception`, `sequence-query`, `raise KeyError(key)`. -/
+section GenDispatch
+open DTML.GenSeqVar DTML.Lemmas.SeqVar
+
+/-- the dictionary comes first -/
+theorem gen_getitem_data_is_model (sv : SeqVars) (fuel : Nat) (key : Text) (v : Val) (h : dataHas sv key = some v) :
+    getitemGen sv (fuel + 1) key = .ok v := by
+  simp only [getitemGen, h]
+
+/-- a key `p-m` outside the dictionary is split at its last '-' into prefix `p` and suffix `m` -/
+theorem gen_getitem_split (sv : SeqVars) (fuel : Nat) (p m : Text) (hm : '-' ∉ m)
+    (hd : dataHas sv (p ++ '-' :: m) = none) :
+    getitemGen sv (fuel + 1) (p ++ '-' :: m) = tailGen sv (getitemGen sv fuel) (p ++ '-' :: m) m p :=
+  getitem_split sv fuel p m hm hd
+
+/-- a key without '-' and no `prefix=`: KeyError -/
+theorem gen_getitem_plain_key_missing (sv : SeqVars) (fuel : Nat) (key : Text) (hk : '-' ∉ key)
+    (hp : sv.prefix_ = none) (hd : dataHas sv key = none) :
+    getitemGen sv (fuel + 1) key = .keyError key := by
+  have hl : rfind '-' key < 0 := by rw [rfind_none '-' key hk]; omega
+  simp only [getitemGen, hd, hl, if_true, altPrefix, hp]
+
+/-- the per-index names the loop does not store: the fixed-name variables of the model, outside the dictionary -/
+def fixedKeys : List Text :=
+  ["sequence-number".toList, "sequence-even".toList, "sequence-odd".toList, "sequence-letter".toList,
+   "sequence-Letter".toList, "sequence-Roman".toList, "sequence-roman".toList, "sequence-length".toList,
+   "sequence-item".toList, "sequence-key".toList]
+
+/-- **`sequence-<name>` is routed to the method `<name>` with `data['sequence-index']`**, which is the entry of
+`seqFixed` (`seqKeyRes` for `sequence-key`) -/
+theorem gen_getitem_fixed_is_model (sv : SeqVars) (fuel : Nat) (hn : sv.noIndex = false)
+    (hi : sv.index < sv.items.length) (hc : 97 + sv.index < maxCode)
+    (hd : ∀ k ∈ fixedKeys, dataHas sv k = none) :
+    optOf (getitemGen sv (fuel + 1) "sequence-number".toList) = seqFixed sv "number".toList ∧
+    optOf (getitemGen sv (fuel + 1) "sequence-even".toList) = seqFixed sv "even".toList ∧
+    optOf (getitemGen sv (fuel + 1) "sequence-odd".toList) = seqFixed sv "odd".toList ∧
+    optOf (getitemGen sv (fuel + 1) "sequence-letter".toList) = seqFixed sv "letter".toList ∧
+    optOf (getitemGen sv (fuel + 1) "sequence-Letter".toList) = seqFixed sv "Letter".toList ∧
+    optOf (getitemGen sv (fuel + 1) "sequence-Roman".toList) = seqFixed sv "Roman".toList ∧
+    optOf (getitemGen sv (fuel + 1) "sequence-roman".toList) = seqFixed sv "roman".toList ∧
+    optOf (getitemGen sv (fuel + 1) "sequence-length".toList) = seqFixed sv "length".toList ∧
+    optOf (getitemGen sv (fuel + 1) "sequence-item".toList) = seqFixed sv "item".toList ∧
+    toSeqRes (getitemGen sv (fuel + 1) "sequence-key".toList) = seqKeyRes sv := by
+  obtain ⟨f1, f2, f3, f4, f5, f6, f7, f8, f9⟩ := gen_seqvar_fixed_is_model sv hi hc
+  have route : ∀ m : Text, '-' ∉ m → hasattrSelf m = true → ("sequence".toList ++ '-' :: m) ∈ fixedKeys →
+      getitemGen sv (fuel + 1) ("sequence".toList ++ '-' :: m) = callAttr sv m (.int sv.index) :=
+    fun m h1 h2 h3 => getitem_sequence sv fuel m h1 h2 hn (hd _ h3)
+  refine ⟨?_, ?_, ?_, ?_, ?_, ?_, ?_, ?_, ?_, ?_⟩
+  · rw [f1, ← show callAttr sv "number".toList (.int sv.index) = numberGen sv (.int sv.index) by simp [callAttr],
+      ← route "number".toList (by decide) (by decide) (by decide)]; rfl
+  · rw [f2, ← show callAttr sv "even".toList (.int sv.index) = evenGen sv (.int sv.index) by simp [callAttr],
+      ← route "even".toList (by decide) (by decide) (by decide)]; rfl
+  · rw [f3, ← show callAttr sv "odd".toList (.int sv.index) = oddGen sv (.int sv.index) by simp [callAttr],
+      ← route "odd".toList (by decide) (by decide) (by decide)]; rfl
+  · rw [f4, ← show callAttr sv "letter".toList (.int sv.index) = letterGen sv (.int sv.index) by simp [callAttr],
+      ← route "letter".toList (by decide) (by decide) (by decide)]; rfl
+  · rw [f5, ← show callAttr sv "Letter".toList (.int sv.index) = LetterGen sv (.int sv.index) by simp [callAttr],
+      ← route "Letter".toList (by decide) (by decide) (by decide)]; rfl
+  · rw [f6, ← show callAttr sv "Roman".toList (.int sv.index) = RomanGen sv (.int sv.index) by simp [callAttr],
+      ← route "Roman".toList (by decide) (by decide) (by decide)]; rfl
+  · rw [f7, ← show callAttr sv "roman".toList (.int sv.index) = romanGen sv (.int sv.index) by simp [callAttr],
+      ← route "roman".toList (by decide) (by decide) (by decide)]; rfl
+  · rw [f8, ← show callAttr sv "length".toList (.int sv.index) = lengthGen sv (.int sv.index) by simp [callAttr],
+      ← route "length".toList (by decide) (by decide) (by decide)]; rfl
+  · rw [f9, ← show callAttr sv "item".toList (.int sv.index) = itemGen sv (.int sv.index) by simp [callAttr],
+      ← route "item".toList (by decide) (by decide) (by decide)]; rfl
+  · rw [← gen_seqvar_key_is_model sv hi,
+      ← show callAttr sv "key".toList (.int sv.index) = keyGen sv (.int sv.index) by simp [callAttr],
+      ← route "key".toList (by decide) (by decide) (by decide)]; rfl
+
+/-- **`sequence-var-x`** (no '-' in `x`): `self.value(data['sequence-index'], x)`, any exception of it a KeyError -
+the `sequence-var-` branch of `seqLookup` -/
+theorem gen_getitem_var_is_model (sv : SeqVars) (fuel : Nat) (x : Text) (hx : '-' ∉ x) (hn : sv.noIndex = false)
+    (hd : dataHas sv ("sequence-var-".toList ++ x) = none) (hi : dataHas sv "sequence-var-index".toList = none) :
+    toSeqRes (getitemGen sv (fuel + 1) ("sequence-var-".toList ++ x)) = seqLookup sv ("sequence-var-".toList ++ x) := by
+  rw [lookup_sequence_var]
+  have ek : "sequence-var-".toList ++ x = "sequence-var".toList ++ '-' :: x := by
+    rw [show "sequence-var-".toList = "sequence-var".toList ++ ['-'] by decide]; simp
+  rw [ek] at hd ⊢
+  rw [getitem_split sv fuel _ x hx hd]
+  have e : "sequence-var".toList ++ "-index".toList = "sequence-var-index".toList := by decide
+  have hs : isSpecialPrefix "sequence-var".toList = false := by decide
+  have h4 : sliceFrom "sequence-var".toList (-4) = "-var".toList := by decide
+  have h5 : sliceTo "sequence-var".toList (-4) = "sequence".toList := by decide
+  have e2 : "sequence".toList ++ "-index".toList = "sequence-index".toList := by decide
+  have hq : ¬ ("sequence-var".toList ++ '-' :: x = "sequence-query".toList) := by
+    intro h; simp at h
+  simp only [tailGen, e, hs, h4, h5, e2, if_true, hq, if_false, Bool.false_eq_true, pyData, bind_ok, data_index' sv hn,
+    pyCall2]
+  have key : toSeqRes (match valueGen sv (.int sv.index) (.str x) with
+      | .ok r => .ok r | _ => .keyError ("sequence-var".toList ++ '-' :: x)) = ofOpt (seqValue sv sv.index x) := by
+    rw [← gen_seqvar_value_is_seqValue sv sv.index x]
+    cases valueGen sv (.int sv.index) (.str x) <;> rfl
+  cases hgg : dataGet sv "sequence-var-index".toList with
+  | ok v => unfold dataHas at hi; rw [hgg] at hi; cases hi
+  | keyError _ => dsimp only; split <;> exact key
+  | raise _ => dsimp only; split <;> exact key
+
+/-- **`first-x`** (no '-' in `x`) is routed through `special_prefixes` to `first(x, key)` - the `first-` branch of
+`seqLookup` -/
+theorem gen_getitem_first_is_model (sv : SeqVars) (fuel : Nat) (x : Text) (hx : '-' ∉ x) (hw : WellPlaced sv)
+    (hd : dataHas sv ("first-".toList ++ x) = none) (hi : dataHas sv "first-index".toList = none) :
+    toSeqRes (getitemGen sv (fuel + 1) ("first-".toList ++ x)) = seqLookup sv ("first-".toList ++ x) := by
+  rw [lookup_first sv x (by simp [stripPrefix]) (by simp [stripPrefix])]
+  have ek : "first-".toList ++ x = "first".toList ++ '-' :: x := by
+    rw [show "first-".toList = "first".toList ++ ['-'] by decide]; simp
+  rw [ek] at hd ⊢
+  rw [getitem_first sv fuel x hx hd hi, gen_seqvar_first_is_model sv x _ hw]
+
+/-- **`last-x`** likewise: `last(x, key)` - the `last-` branch of `seqLookup` -/
+theorem gen_getitem_last_is_model (sv : SeqVars) (fuel : Nat) (x : Text) (hx : '-' ∉ x) (hw : WellPlaced sv)
+    (hd : dataHas sv ("last-".toList ++ x) = none) (hi : dataHas sv "last-index".toList = none) :
+    toSeqRes (getitemGen sv (fuel + 1) ("last-".toList ++ x)) = seqLookup sv ("last-".toList ++ x) := by
+  rw [lookup_last sv x (by simp [stripPrefix]) (by simp [stripPrefix]) (by simp [stripPrefix])]
+  have ek : "last-".toList ++ x = "last".toList ++ '-' :: x := by
+    rw [show "last-".toList = "last".toList ++ ['-'] by decide]; simp
+  rw [ek] at hd ⊢
+  rw [getitem_last sv fuel x hx hd hi, gen_seqvar_last_is_model sv x _ hw]
+
+/-- the hypotheses are satisfiable: a frame of the loop with an empty dictionary of extras -/
+example : ∀ k ∈ fixedKeys, dataHas { items := [.int 1, .int 2], index := 1, started := false } k = none := by decide
+
+end GenDispatch
 
 end DTML.Props.C10
